@@ -46,7 +46,7 @@ class MGrid:
     def dataset(self, mvars, extra=None):
         ds = S.make_ds(self.layouts, self.ns, extra)
         for v in mvars:
-            ds[v.name] = (v.dims, v.values)
+            ds[v.name] = (v.dims, v.values.copy())  # (own buffer: the model's values stay what they are whatever happens to the dataset)
         return ds
 
     def make_var(self, name, axes, positions, pit):
